@@ -1282,7 +1282,10 @@ pub fn run_case(property: &str, tier: &str, seed: u64, case: u64) -> CaseResult 
 		"C03" | "C06" => {
 			// every fourth case delivers the world through the real p2p stack (E11 netsim); for C03 every
 			// eighth is a mesh of real nodes gossiping among themselves
-			if property == "C03" && case % 8 == 5 {
+			if property == "C03" && case % 8 == 1 {
+				// the world reaches the node through its own sync loop (E12)
+				crate::syncsim::case_c03(tier, seed, case)
+			} else if property == "C03" && case % 8 == 5 {
 				crate::netsim::mesh_case(property, tier, seed, case)
 			} else if property == "C06" && case % 8 == 5 {
 				// the pool clauses of C06 (submissions never change chain state; a losing fork block leaves
